@@ -991,9 +991,86 @@ func switchSignal() {
 	vrt.Observe("ticks=%v others=%v", ticks, others)
 }
 
+// twoClientsOneConnection: two bus.Client objects built on one connection (each keeps
+// its own subscription count and registers its own handler id) follow tick; the first
+// leaves, in either order of arrival: the one that stays goes on receiving (seed C13-20
+// acknowledged the second registration of a connection without recording it). While both
+// are registered the server sends one copy per registration and each client sees both:
+// that is not judged, only that nothing is lost, nothing is foreign, and that the channel
+// of the client that stays is open.
+func twoClientsOneConnection() {
+	collected = nil
+	w := fx.Start(bus.Yes{})
+	c1 := w.MustConnect()
+	c2 := *c1
+	c2.Client = bus.NewClient(c1.Client.Channel())
+	p := []probe.ProbeProxy{c1.Probe(1), (&c2).Probe(1)}
+	leaver := vrt.ChooseFree(2, "which client leaves")
+	vrt.Explore()
+	stayer := 1 - leaver
+	var got [2][]int32
+	var open [2]bool
+	var cancels [2]func()
+	for i := 0; i < 2; i++ {
+		i := i
+		cancel, ch, err := p[i].SubscribeTick()
+		if err != nil {
+			failf("subscribe-failed/two-clients", "client %d of the connection: %v", i, err)
+			flush()
+			return
+		}
+		cancels[i] = cancel
+		open[i] = true
+		vrt.GoNamed(fmt.Sprintf("drain-%d", i), func() {
+			for v := range ch {
+				got[i] = append(got[i], v)
+			}
+			open[i] = false
+		})
+	}
+	emit := func(n int32) {
+		if err := w.Root.Helper.SignalTick(n); err != nil {
+			failf("emit-error", "tick(%d): %v", n, err)
+		}
+		vrt.Quiesce()
+	}
+	emit(1)
+	cancels[leaver]()
+	vrt.Quiesce()
+	emit(2)
+	emit(3)
+	has := func(l []int32, v int32) bool {
+		for _, x := range l {
+			if x == v {
+				return true
+			}
+		}
+		return false
+	}
+	for _, v := range []int32{1, 2, 3} {
+		if !has(got[stayer], v) {
+			failf("event-lost/two-clients", "two clients of one connection followed tick, client %d left after tick(1): the client that stayed received %v of [1 2 3] (channel open: %v)", leaver, got[stayer], open[stayer])
+			break
+		}
+	}
+	for _, v := range got[stayer] {
+		if v < 1 || v > 3 {
+			failf("foreign-event/two-clients", "received %v", got[stayer])
+		}
+	}
+	if has(got[leaver], 2) || has(got[leaver], 3) {
+		failf("event-after-cancel/two-clients", "the client that left after tick(1) received %v", got[leaver])
+	}
+	fx.Settle()
+	flush()
+	vrt.Observe("leaver=%d stayer=%v leaver-got=%v", leaver, got[stayer], got[leaver])
+}
+
 func init() {
 	reg.Register(&reg.Scenario{Property: "C13", Name: "subscriber-beside-caller", Body: besideCaller, Quick: 2, Thorough: 3,
 		Doc: "one goroutine subscribes while another goroutine of the same client makes two calls (answer handlers and event handler share the connection's handler table); three events afterwards: all received, channel open until cancel, calls answered"})
+	reg.Register(&reg.Scenario{Property: "C13", Name: "two-clients-one-connection", Body: twoClientsOneConnection, Quick: 0, Thorough: 1,
+		Doc: "two bus.Client objects on one connection follow tick, one of them leaves after the first event: the other still receives every later event"})
 	reg.Register(&reg.Scenario{Property: "C13", Name: "switch-signal-during-event", Body: switchSignal, Quick: 2, Thorough: 3,
 		Doc: "one client: cancel(tick); subscribe(other) || the service emits tick twice: the fresh subscription to other never receives a tick event, stays open and receives the next other event", MustFlag: []string{"tick-delivered-before-switch", "switch-before-last-tick"}})
 	reg.Register(&reg.Scenario{Property: "C13", Name: "two-signals-and-a-property-one-connection", Body: twoSignals, Quick: 0, Thorough: 1,
